@@ -382,7 +382,7 @@ def isTemp (tmpdirs : List Path) (destDir : Path) (prefixes : List String) (p : 
   tmpdirs.any (fun d => below d p) ||
   (below destDir p &&
     match (p.drop destDir.length).head? with
-    | some c => prefixes.any (fun x => (x ++ "#").isPrefixOf c)
+    | some c => prefixes.any (fun x => (x ++ "#").toList.isPrefixOf c.toList)
     | none => false)
 
 end PB.FsAtomic
